@@ -259,8 +259,31 @@ impl EventGen for Container {
                 if let Some((start, _end)) = self.0.event_range {
                     el.event_range = Some((start, start)); // emulate an Empty element
                 }
+                // Character data directly inside the shape is its text, as it is without
+                // the child elements (white space alone is layout, and stays where it is).
+                let mut text = String::new();
+                let mut children = InputList::new();
+                let mut depth = 0;
+                for e in inner_events.iter() {
+                    let piece = match depth {
+                        0 => e
+                            .cdata_string()
+                            .or(e.text_string().filter(|t| !t.trim().is_empty())),
+                        _ => None,
+                    };
+                    match piece {
+                        Some(piece) => text.push_str(&piece),
+                        None => {
+                            depth += e.depth_change();
+                            children.push(e.clone());
+                        }
+                    }
+                }
+                if !text.trim().is_empty() {
+                    el.set_attr("text", &text);
+                }
                 let (shape_events, bbox) = generate_same_level(&el, context)?;
-                let (child_events, _) = process_events(inner_events, context)?;
+                let (child_events, _) = process_events(children, context)?;
                 let mut events = OutputList::new();
                 let mut children = Some(child_events);
                 for ev in shape_events.iter() {
